@@ -308,6 +308,13 @@ class C05(Prop):
                                 'place': {'dt': rng.choice(
                                     [0.01, 0.04, 0.12, 0.3, 0.6])}})
             ops[:] = out
+        if rng.random() < 0.04:
+            # "retry indefinitely" (max_retry = -1, documented) and a command
+            # that cannot be executed for a long time
+            wc = rng.choice(cfg['watchers'])
+            wc['opts']['max_retry'] = -1
+            cfg['exec_fail_from'] = [rng.randrange(1, 10),
+                                     '--marker=%s' % wc['marker']]
         if rng.random() < 0.05:
             # a worker whose main thread exits while its other threads go
             # on: a zombie for /proc and psutil, not yet for waitpid()
